@@ -118,6 +118,10 @@ with cf.ThreadPoolExecutor(int(os.environ.get("MUT_JOBS", "8"))) as ex:
         if r[2] == "SURVIVED":
             print("SURVIVED", r[0], r[1])
             sys.stdout.flush()
+if flt and os.path.exists(os.path.join(ROOT, "evidence", "mutants.json")):
+    # partial run: keep the recorded verdicts of the functions that were not re-run
+    old_ = json.load(open(os.path.join(ROOT, "evidence", "mutants.json")))
+    res = [(m["function"], m["mutant"], m["verdict"]) for m in old_["mutants"] if m["function"] not in keys] + res
 summary = {}
 for k, d, v in res:
     summary.setdefault(v.split("(")[0], 0)
